@@ -65,6 +65,26 @@ def _simple_body(g):
     return body
 
 
+def _stringy(e) -> bool:
+    """is `e` certainly a string (so that + means concatenation)?"""
+    if isinstance(e, ast.Constant):
+        return isinstance(e.value, str)
+    if isinstance(e, ast.JoinedStr):
+        return True
+    if isinstance(e, ast.BinOp) and isinstance(e.op, ast.Add):
+        return _stringy(e.left) or _stringy(e.right)
+    if isinstance(e, ast.BinOp) and isinstance(e.op, ast.Mult):
+        return _stringy(e.left) or _stringy(e.right)          # 'L' * (n > 16)
+    if isinstance(e, ast.Call) and isinstance(e.func, ast.Name) and e.func.id in ("str", "repr"):
+        return True
+    if isinstance(e, ast.Call) and isinstance(e.func, ast.Attribute) and e.func.attr in ("format", "join", "replace", "lower", "upper", "strip") and \
+            (isinstance(e.func.value, ast.Constant) or e.func.attr in ("format", "join")):
+        return True
+    if isinstance(e, ast.IfExp):
+        return _stringy(e.body) and _stringy(e.orelse)
+    return False
+
+
 def sym(px, func, expr, depth: int = 3, _bound: typing.Optional[dict] = None) -> typing.List[Alt]:
     e = pyfront.subst_locals(func.node, expr)
     if _bound:
@@ -88,7 +108,7 @@ def _sym(px, func, e, depth, bound) -> typing.List[Alt]:
             else:
                 parts.append([((), (("A", ast.unparse(v)),))])
         return _product(parts)
-    if isinstance(e, ast.BinOp) and isinstance(e.op, ast.Add):
+    if isinstance(e, ast.BinOp) and isinstance(e.op, ast.Add) and (_stringy(e.left) or _stringy(e.right)):
         return _product([_sym(px, func, e.left, depth, bound), _sym(px, func, e.right, depth, bound)])
     if isinstance(e, ast.IfExp):
         out = []
@@ -154,7 +174,22 @@ def _sym(px, func, e, depth, bound) -> typing.List[Alt]:
             for c, p in _sym(px, func, ec, depth - 1, bound):
                 out.append((terms + c, p))
         return out
-    return [((), (("A", ast.unparse(e)),))]
+    return [((), (("A", ast.unparse(_canon(e))),))]
+
+
+class _Mirror(ast.NodeTransformer):
+    _M = {ast.Lt: ast.Gt, ast.Gt: ast.Lt, ast.LtE: ast.GtE, ast.GtE: ast.LtE, ast.Eq: ast.Eq, ast.NotEq: ast.NotEq}
+
+    def visit_Compare(self, node):
+        self.generic_visit(node)
+        if len(node.ops) == 1 and isinstance(node.left, ast.Constant) and not isinstance(node.comparators[0], ast.Constant) and type(node.ops[0]) in self._M:
+            return ast.copy_location(ast.Compare(left=node.comparators[0], ops=[self._M[type(node.ops[0])]()], comparators=[node.left]), node)
+        return node
+
+
+def _canon(e):
+    """one spelling for comparisons inside atoms: the constant on the right (16 < n  ->  n > 16)"""
+    return ast.fix_missing_locations(_Mirror().visit(copy.deepcopy(e)))
 
 
 def render(alt_pieces, param: typing.Optional[str] = None) -> str:
